@@ -1131,6 +1131,7 @@ def run(ctx):
     ctx.set_obligations(coq.compile_props('C05'))
     vocab = Vocab(cirq)
     witness_stream(ctx, cirq, vocab)
+    moment_stream(ctx, cirq, vocab, 150 if ctx.tier == 'quick' else 400)
     n = 360 if ctx.tier == 'quick' else 6000
     history_stream(ctx, cirq, vocab, n)
 
@@ -1173,6 +1174,83 @@ def witness_stream(ctx, cirq, vocab):
                             '(if the defect was repaired, the theorem and the known finding must be retired)')
         for (step, kind, what) in problems:
             report_problem(ctx, cirq, vocab, w, calls, step, kind, what)
+
+
+def moment_stream(ctx, cirq, vocab, n):
+    """Chains of public Moment calls: after every call the operations (uids) and the moment-level indexes
+    (qubits, measurement keys, control keys) are compared with the model and with a freshly built Moment."""
+    rng = ctx.rng
+    rows = []
+    for i in range(n):
+        w = World(cirq, vocab)
+        gen = Gen(rng, w)
+        m = cirq.Moment()
+        calls, trace = [], []
+        for step in range(rng.choice([1, 2, 4, 8, 12])):
+            r = rng.random()
+            used = {q.x for q in m.qubits}
+            free = [q for q in range(NQ) if q not in used]
+            pick = lambda: gen.new_op(free if (free and rng.random() < 0.75) else None)
+            if r < 0.4:
+                call = ('MWithOperation', [pick()])
+            elif r < 0.65:
+                call = ('MWithOperations', [pick() for _ in range(rng.randint(0, 3))])
+            elif r < 0.85:
+                call = ('MWithoutTouching', rng.sample(range(NQ), rng.randint(0, 3)))
+            else:
+                call = ('MNew', [pick() for _ in range(rng.randint(0, 3))])
+            ok = True
+            try:
+                if call[0] == 'MWithOperation':
+                    m = m.with_operation(w.op(call[1][0]))
+                elif call[0] == 'MWithOperations':
+                    m = (m + [w.op(u) for u in call[1]]) if rng.random() < 0.3 else m.with_operations(*[w.op(u) for u in call[1]])
+                elif call[0] == 'MWithoutTouching':
+                    m = m.without_operations_touching([vocab.q(q) for q in call[1]])
+                else:
+                    m = cirq.Moment([w.op(u) for u in call[1]])
+            except ValueError:
+                ok = False
+            uids = [vocab.uid_of(op) for op in m.operations]
+            obs = (ok, uids, sorted(q.x for q in m.qubits),
+                   sorted(int(str(k)[1:]) for k in cirq.measurement_key_objs(m)),
+                   sorted(int(str(k)[1:]) for k in cirq.control_keys(m)))
+            calls.append(call)
+            trace.append(obs)
+            # spec level: a freshly built Moment of the same operations answers the same
+            f = cirq.Moment(list(m.operations))
+            qs = [vocab.q(q) for q in rng.sample(range(NQ), 2)]
+            same = (m == f and hash(m) == hash(f) and m.qubits == f.qubits and m.operates_on(qs) == f.operates_on(qs)
+                    and cirq.measurement_key_objs(m) == cirq.measurement_key_objs(f) and cirq.control_keys(m) == cirq.control_keys(f)
+                    and m.operation_at(qs[0]) == f.operation_at(qs[0]))
+            seen = set()
+            disjoint = all(not (seen & set(op.qubits)) and not seen.update(op.qubits) for op in m.operations)
+            if not same or not disjoint:
+                ctx.violation('moment:' + '>'.join(c[0] for c in calls),
+                              f'a Moment built by {calls} differs from a freshly built Moment of the same operations (or holds overlapping operations)',
+                              dict(kind='moment', ops={str(u): sp for u, sp in w.ops0.items()}, calls=calls))
+        rows.append((w, calls, trace))
+        ctx.count('moment', [c for c in calls], len(calls) >= 2 and len(trace[-1][1]) >= 2,
+                  sample=dict(calls=calls[:3], final=trace[-1][1]))
+
+    def mcall(w, c):
+        if c[0] == 'MWithOperation':
+            return f'MWithOperation {coq_op(w, c[1][0])}'
+        if c[0] == 'MWithoutTouching':
+            return f'MWithoutTouching {ZL(c[1])}'
+        return f'{c[0]} {coq_moment(w, c[1])}'
+    text = ('From Coq Require Import ZArith List Bool.\nFrom VF Require Import Base.Harness Circ.Moments Circ.MomentCalls Circ.Compare.\n'
+            'Import ListNotations.\nOpen Scope Z_scope.\n')
+    text += 'Definition mh : list (list mcall * list (bool * (list Z * (list Z * (list Z * list Z))))) := [\n'
+    text += ';\n'.join('([' + '; '.join(mcall(w, c) for c in calls) + '],\n  [' +
+                       '; '.join(f'({"true" if o[0] else "false"}, ({ZL(o[1])}, ({ZL(o[2])}, ({ZL(o[3])}, {ZL(o[4])}))))' for o in trace) + '])'
+                       for (w, calls, trace) in rows) + '].\n'
+    text += 'Eval vm_compute in failing check_moment_history mh.\n'
+    vals = coq.parse_evals(coq.coq_eval(f'c05_moment_{ctx.seed}', text))
+    assert len(vals) == 1, vals
+    for idx in coq.parse_nat_list(vals[0]):
+        w, calls, trace = rows[idx]
+        ctx.mark_broken('correspondence:moment', f'model and implementation differ on the Moment chain {calls}: implementation gave {trace}')
 
 
 def history_stream(ctx, cirq, vocab, n, shard=300):
@@ -1324,6 +1402,24 @@ def signature(doc, kind):
 def replay(ctx, data):
     cirq = env.import_cirq()
     vocab = Vocab(cirq)
+    if data.get('kind') == 'moment':
+        w = World(cirq, vocab, data['ops'])
+        m = cirq.Moment()
+        for c in data['calls']:
+            try:
+                if c[0] == 'MWithOperation':
+                    m = m.with_operation(w.op(c[1][0]))
+                elif c[0] == 'MWithOperations':
+                    m = m.with_operations(*[w.op(u) for u in c[1]])
+                elif c[0] == 'MWithoutTouching':
+                    m = m.without_operations_touching([vocab.q(q) for q in c[1]])
+                else:
+                    m = cirq.Moment([w.op(u) for u in c[1]])
+            except ValueError:
+                pass
+        f = cirq.Moment(list(m.operations))
+        return m == f and m.qubits == f.qubits and cirq.measurement_key_objs(m) == cirq.measurement_key_objs(f) \
+            and cirq.control_keys(m) == cirq.control_keys(f)
     if data.get('kind') != 'history':
         print('nothing to replay for kind', data.get('kind'))
         return False
